@@ -303,6 +303,38 @@ class _Renamed:
             return self._run.floor(r, *a, **kw)
 
 
+def lossy_state_stores(fn, enums):
+    """Assignments `this.<member> = <implicit integral conversion whose operand range does not fit the member's type>`:
+    [(node, operand range, target type)].  (Stores through the cursor m_p are the encoding itself and are decided byte by
+    byte by R06.1; this is about what the encoder remembers between calls.)"""
+    from .. import ranges
+    lossy = {id(n): (n, r, t) for n, r, t in ranges.narrowing_conversions(fn, enums)}
+    out = []
+    for n in ir.walk(fn["body"]):
+        if n.get("k") == "Bin" and n.get("op") == "=":
+            lp = path(n.get("lhs"))
+            rhs = n.get("rhs")
+            if lp and lp[0] == "this" and len(lp) >= 2 and isinstance(rhs, dict) and id(rhs) in lossy:
+                out.append(lossy[id(rhs)])
+    return out
+
+
+def check_lossy_state(run, rule):
+    facts = run.facts
+    if not lossy_state_stores(facts.control("r06_9_state::remember", rule), facts.enums) or \
+            lossy_state_stores(facts.control("r06_9_state::remember_wide", rule), facts.enums):
+        raise AnalysisBroken(rule, "the lossy-state detector gives the wrong answer on its controls (tu/rule_controls.cpp)")
+    n = 0
+    for f in enc_fns(facts):
+        n += 1
+        bad = lossy_state_stores(f, facts.enums)
+        run.ob(rule, "%s(%s):state-keeps-all-bits" % (f["qn"].split("::")[-1], ",".join(f["sig"])), not bad, f, bad[0][0].get("l", f["line"]) if bad else f["line"],
+               "nothing the encoder remembers between calls is narrowed on the way into a member" if not bad else
+               "a value with range [%d, %d] is stored into encoder state of type %s: two different arguments become indistinguishable to later "
+               "calls that consult this member" % (bad[0][1][0], bad[0][1][1], bad[0][2]), nontrivial=False)
+    run.floor(rule, 15, "encoder member functions")
+
+
 def check_public_writes(run, rename=None):
     if rename:
         run = _Renamed(run, rename)
@@ -602,8 +634,25 @@ def check_buffer_discipline(run):
                 ok = cv == nst
                 why = "advances by %s after %d single-byte store(s)" % (cv, nst)
             else:
+                # a bulk copy of n bytes to the cursor directly before it, under a guard n <= m_avail
                 ok = None
                 why = "update_buffer(%s): origin of the count not understood" % show(a)
+                envb = Env(f["body"])
+                for b_ in ir.walk(f["body"]):
+                    if b_.get("k") != "Block":
+                        continue
+                    ss_ = b_.get("s", [])
+                    for i_, st_ in enumerate(ss_):
+                        if i_ > 0 and isinstance(st_, dict) and any(x is c for x in ir.walk(st_)):
+                            prev = unwrap(ss_[i_ - 1])
+                            if isinstance(prev, dict) and prev.get("k") == "Call" and callee_name(prev) == "memcpy" and len(prev.get("args", [])) == 3 and \
+                                    is_member(ir.unwrap_all_casts(prev["args"][0]), "m_p") and show(prev["args"][2]) == show(a):
+                                g_ = [g2 for s2, g2, l2 in ir.guarded_statements(f["body"], envb) if s2 is st_]
+                                nk = ir.int_key(a, envb)
+                                fits = bool(g_) and any(at[0] == "cmp" and at[1] in ("<=", "<") and at[2] == nk and at[3] == "this.m_avail" for at in conjuncts(g_[0]))
+                                ok = fits
+                                why = "advances by the %s bytes just copied to the cursor, which fit the free space" % show(a) if fits else \
+                                    "memcpy of %s bytes to the cursor is not guarded by %s <= m_avail" % (show(a), show(a))
             run.ob("R06.4", "%s(%s):update_buffer(%s)" % (nm, ",".join(f["sig"]), show(a)), ok, f, c["l"], why)
     run.floor("R06.4", 25, "stores, cursor writers, update_buffer arguments")
     run.info["stores_through_m_p"] = nstores
@@ -897,6 +946,26 @@ def check_primitive_returns(run, rule):
                 ok = bool(wss) and any(path(u["args"][0]) == lp for u in ubs) and rp is not None and path(wss[0]["args"][1]) == rp
                 run.ob(rule, key, ok, f, r["l"], "returns head bytes + payload size handed to write_string" if ok else
                        "returns %s; expected <head count> + <size passed to write_string>" % show(e))
+            elif isinstance(e, dict) and e.get("k") == "Bin" and e.get("op") == "-" and is_member(ir.unwrap_all_casts(e["lhs"]), "m_p") and \
+                    path(e["rhs"]) is not None and len(path(e["rhs"])) == 1 and path(e["rhs"])[0].startswith("l:"):
+                # `return m_p - start`: the distance the cursor moved since `start = m_p`.  That is the number of bytes appended
+                # only if the buffer was not flushed in between (flush_buffer() takes the cursor back to the buffer start)
+                order_ = {id(x): i for i, x in enumerate(ir.walk(f["body"]))}
+                sp = path(e["rhs"])[0]
+                decl = [d_ for d_ in ir.walk(f["body"]) if d_.get("k") == "Decl" and any("l:%s#%s" % (v_.get("n"), v_.get("id")) == sp for v_ in d_.get("vars", []))]
+                init = [v_.get("init") for d_ in decl for v_ in d_.get("vars", []) if "l:%s#%s" % (v_.get("n"), v_.get("id")) == sp]
+                if len(decl) != 1 or init[0] is None or not is_member(ir.unwrap_all_casts(init[0]), "m_p") or sp in ir.written_locals(f["body"]) - {sp} and False:
+                    run.ob(rule, key, None, f, r["l"], "return expression %s not understood" % show(e))
+                else:
+                    fl = [c_ for c_ in ir.calls_in(f["body"]) if callee_qn(c_) == "CDNS::CdnsEncoder::flush_buffer" and order_[id(decl[0])] < order_[id(c_)] < order_[id(r)]]
+                    # write_string() may flush as well
+                    ws_between = [c_ for c_ in wss if order_[id(decl[0])] < order_[id(c_)] < order_[id(r)]]
+                    okd = not fl and not ws_between
+                    run.ob(rule, key, okd, f, r["l"],
+                           "returns the distance the cursor moved since it was sampled; no flush lies between" if okd else
+                           "returns m_p - %s, but %s can run between the sample and the return: a flush takes the cursor back to the start of the buffer, "
+                           "the difference then wraps and the reported count is off by what was buffered" % (
+                               sp.split("#")[0][2:], "flush_buffer()" if fl else "write_string() (which flushes)"))
             else:
                 # a single term that is neither the head counter nor a forwarded call
                 terms_known = p is not None and (p[0].startswith("p:") or p[0].startswith("l:"))
@@ -974,6 +1043,7 @@ def check(run):
     check_write_string(run)
     check_primitive_returns(run, "R06.6")
     check_always_emits(run, "R06.8")
+    check_lossy_state(run, "R06.9")
     from .. import ranges
     for f in enc_fns(run.facts):
         seen = {}
